@@ -41,16 +41,21 @@ def op_branches(fn, mod, cls=None, subject="expr.op", consts=None):
         if sel is None:
             continue
         guards = []
+        nested = False
         p = getattr(n, "_parent", None)
         ch = n
         while p is not None and p is not fn:
             if isinstance(p, ast.If):
                 # only count as guard when we are in its body (an elif chain nests in orelse)
                 if any(ch is s for s in p.body):
+                    if _selector(p.test, mod, cls, subject, consts) is not None:
+                        nested = True
                     guards.append(norm(p.test))
                 else:
                     guards.append("not(" + norm(p.test) + ")") if _selector(p.test, mod, cls, subject, consts) is None else None
             ch, p = p, getattr(p, "_parent", None)
+        if nested:
+            continue      # a refinement inside another operator branch, not a branch of its own
         out.append({"kind": sel[0], "ops": sel[1], "node": n, "body": n.body, "guards": [g for g in guards if g]})
     return out
 
